@@ -40,6 +40,9 @@ pub struct LoopSpec {
     pub iter_name: Option<String>,
     /// R8: iterate over `WRAP(&(EXPR))` instead of `EXPR` (dependency container -> Vec of its elements in iteration order)
     pub wrap: Option<String>,
+    /// with wrap=: bind the wrapped vector to this name first (`let NAME = WRAP(&(EXPR)); let ghost NAME_g = NAME@;`)
+    /// so that invariants and later proof text can name the sequence iterated over
+    pub bind: Option<String>,
     pub invariants: Vec<Clause>,
     pub invariants_except_break: Vec<Clause>,
     pub ensures: Vec<Clause>,
@@ -214,8 +217,9 @@ pub fn parse_unit(text: &str) -> Unit {
             "@loop" => {
                 ctx = Ctx::Loop;
                 let wrap = words.iter().find_map(|w| w.strip_prefix("wrap=").map(|x| x.to_string()));
+                let bind = words.iter().find_map(|w| w.strip_prefix("bind=").map(|x| x.to_string()));
                 let iter_name = words.get(1).filter(|w| !w.contains('=')).cloned();
-                cur_item!().loops.push(LoopSpec { key: words[0].clone(), iter_name, wrap, ..Default::default() });
+                cur_item!().loops.push(LoopSpec { key: words[0].clone(), iter_name, wrap, bind, ..Default::default() });
             }
             "@closure_sig" => {
                 if !matches!(ctx, Ctx::Loop) {
